@@ -124,10 +124,12 @@ def make_array(sh, flat, dt="f8"):
     return arr.reshape(tuple(sh))
 
 
-def make_data(sh, flat, weights=None, dt="f8", wdt="f8"):
+def make_data(sh, flat, weights=None, dt="f8", wdt="f8", yflat=None):
     kw = {"x": make_array(sh, flat, dt)}
     if weights is not None:
         kw["w"] = make_array(sh, weights, wdt)
+    if yflat is not None:
+        kw["y"] = make_array(sh, yflat, "f8")
     return Data(**kw)
 
 
@@ -1231,6 +1233,103 @@ class HistStateFamily(Family):
         return {"tot": res.get("tot"), "adm": res.get("adm"), "br": res.get("br")}
 
 
+class Hist2Family(Family):
+    """Data.compute_histogram with two attributes (the 2-d path: histogram2d, second padded upper end).
+    Clean stratum only: on neither axis does a value lie on / near an interior edge; range ends sit
+    exactly on data values (the default), linear and log axes at magnitudes 1e-12 .. 1e15."""
+    name = "hist2"
+    exhaustive = False
+    batch = 200
+    budget_share = 0.4
+
+    @staticmethod
+    def _axis(rng, n):
+        """values (length n), range and bin count of one axis, clean in the 1-d sense"""
+        for _ in range(40):
+            r = rng.random()
+            if r < 0.45:
+                log = True
+                pool = [enc(v) for v in rng.sample(XMAG, min(len(XMAG), rng.randint(2, 5)))]
+            elif r < 0.65:
+                log = False
+                base, offs = rng.choice(XLIN)
+                pool = [qv(Fraction(base) + fr(o)) for o in rng.sample(offs, rng.randint(2, len(offs)))]
+            else:
+                log = rng.random() < 0.4
+                pool = rng.sample(LOGPOOL if log else HPOOL, rng.randint(2, 5))
+            vals = [rng.choice(pool) for _ in range(n)]
+            fin = sorted(set(map(fr, vals)))
+            if len(fin) < 2:
+                continue
+            if rng.random() < 0.7:
+                r0, r1 = qv(fin[0]), qv(fin[-1])
+            else:
+                a, b = sorted(rng.sample(fin, 2))
+                r0, r1 = qv(a), qv(b)
+            if rng.random() < 0.2:
+                r0, r1 = r1, r0
+            if rng.random() < 0.2:
+                vals[rng.randrange(n)] = rng.choice(["nan", "pinf", "ninf"])
+            bins = rng.randint(1, 4)
+            probe = [[n], vals, None, None, r0, r1, bins, log]
+            if has_interior_edge(probe) or near_log_edge(probe) or not lin_clear_of_edges(probe):
+                continue
+            return vals, r0, r1, bins, log
+        return [1, 2, 4][:n] + [1] * (n - 3), 1, 4, 1, False
+
+    def cases(self, tier, rng):
+        quick = tier == "quick"
+        # the seeded shape: linear x, log y with the upper end on a data value at 1e12
+        yield [[4], [0, 1, 2, 3], [1000, 200000, 700000000, 10 ** 12], None, None, 0, 3, 1000, 10 ** 12, 2, 3, False, True]
+        yield [[4], [1000, 200000, 700000000, 10 ** 12], [0, 1, 2, 3], [1, 2, 4, 8], None, 10 ** 12, 1000, 0, 3, 3, 2, True, False]
+        for _ in range(600 if quick else 12000):
+            sh = rng.choice([[rng.randint(2, 7)], [2, 3], [2, 2]])
+            n = int(np.prod(sh))
+            xv, rx0, rx1, bx, lx = self._axis(rng, n)
+            yv, ry0, ry1, by, ly = self._axis(rng, n)
+            w = None if rng.random() < 0.6 else [rng.choice(XW) for _ in range(n)]
+            sel = None if rng.random() < 0.7 else rng.choice([["pixgt", 0, 0], ["bits"] + [rng.random() < 0.7 for _ in range(n)]])
+            yield [sh, xv, yv, w, sel, rx0, rx1, ry0, ry1, bx, by, lx, ly]
+
+    def run_impl(self, case):
+        sh, xv, yv, w, sel, rx0, rx1, ry0, ry1, bx, by, lx, ly = case
+        gc.disable()
+        try:
+            d = make_data(sh, xv, w, yflat=yv)
+            st = make_sel(d, sel)
+            h = d.compute_histogram([d.id["x"], d.id["y"]], weights=None if w is None else d.id["w"],
+                                    range=[(dec(rx0), dec(rx1)), (dec(ry0), dec(ry1))], bins=[bx, by],
+                                    log=[lx, ly], subset_state=st)
+            h = np.asarray(h)
+            assert h.shape == (bx, by), h.shape
+            out = [enc_exact(v) for v in h.ravel().tolist()]
+            del st, d
+            return out
+        finally:
+            gc.enable()
+
+    def nontrivial(self, case, po):
+        return isinstance(po, list) and any(v != "0" for v in po)
+
+    def signature(self, case, po, res):
+        return {"tot": res.get("tot"), "bin": res.get("bin"), "br": res.get("br")}
+
+    def shrink(self, case):
+        sh, xv, yv, w, sel, rx0, rx1, ry0, ry1, bx, by, lx, ly = case
+        if sel is not None:
+            yield [sh, xv, yv, w, None, rx0, rx1, ry0, ry1, bx, by, lx, ly]
+        if w is not None:
+            yield [sh, xv, yv, None, sel, rx0, rx1, ry0, ry1, bx, by, lx, ly]
+        if sel is None and len(xv) > 1:
+            for i in range(len(xv)):
+                yield [[len(xv) - 1], xv[:i] + xv[i + 1:], yv[:i] + yv[i + 1:], None if w is None else w[:i] + w[i + 1:],
+                       None, rx0, rx1, ry0, ry1, bx, by, lx, ly]
+        if bx > 1:
+            yield [sh, xv, yv, w, sel, rx0, rx1, ry0, ry1, 1, by, lx, ly]
+        if by > 1:
+            yield [sh, xv, yv, w, sel, rx0, rx1, ry0, ry1, bx, 1, lx, ly]
+
+
 PROP = Property(
     id="C10",
     title="Statistics and histograms equal their definition regardless of chunking or views",
@@ -1240,7 +1339,7 @@ PROP = Property(
               "C10.spec_dtype_independent", "C10.spec_cell_reduce", "C10.accept_exact", "C10.stat_accepted_partial",
               "C10.accept_witness",
               "C10.hist_total", "C10.hist_bin", "C10.hist_bin_top", "C10.hist_perbin_partial", "C10.F10_witness"],
-    families=[StatFamily(), HistFamily(), ProfFamily(), HistStateFamily()],
+    families=[StatFamily(), HistFamily(), ProfFamily(), HistStateFamily(), Hist2Family()],
     trusted_base=["numpy reducers (nanmin/nanmax/nansum/nanmean/nanmedian/nanpercentile and the plain ones) carried out "
                   "in IEEE double precision are assumed to stay within the standard forward error bounds that "
                   "Stats.specAccept computes exactly from the kept values of each cell (exact when every partial sum is "
@@ -1257,6 +1356,7 @@ PROP = Property(
     rule="exhaustive small scope (3 shapes x 12 selection kinds x all axis subsets x all views from a per-axis item "
          "set x chunk limits, statistic/filter rotating) plus seeded random beyond (shapes <=4-d, dims <=3/4); "
          "typed strata: 12 storage dtypes x precision-stressing arrays x statistic x (selection x view x axis x chunking) "
-         "core plus seeded random incl. long reduction axes, typed histogram attribute x weights dtypes; "
+         "core plus seeded random incl. long reduction axes, typed histogram attribute x weights dtypes; histogram ranges "
+         "ending exactly on data values at magnitudes 1e-12..1e15 (log) and large linear magnitudes; 2-d histograms (clean stratum); "
          "non-trivial = a selection, a view or a chunk limit is present / histogram has a non-zero bin",
 )
